@@ -17,3 +17,7 @@ for f in "$OUT"/rsrc/*.c; do
 done
 gcc -O1 -g $SAN -I"$OUT" -I"$HERE/spec" -I"$HERE/replay" -I"$REPO/include" -I"$OUT/rsrc" \
    "$HERE/replay/replay_api.c" "$HERE/spec/spec_ref.c" $objs -Wl,--wrap=calloc -Wl,--wrap=free -o "$OUT/replay_api"
+# the example tools, from the working tree, against the same library objects
+for t in skinny-ctr skinny-ecb skinny-tweak; do
+  gcc -O1 -g $SAN -I"$REPO/include" -I"$REPO/examples" "$REPO/examples/$t.c" "$REPO/examples/options.c" $objs -o "$OUT/$t"
+done
